@@ -143,8 +143,11 @@ theorem inv_stepR {s : St} (h : Inv s) : Inv (stepR s) := by
   cases hr : s.r with
   | idle => exact ⟨h1, h2, h3, h4, h5, h6, h7, h8, h9, h10, h11, h12⟩
   | start =>
-    refine ⟨h1, h2, h3, h4, h5, h6, h7, h8, ?_, ?_, ?_, ?_⟩ <;> simp [RPc.rest]
-    simpa [hr, RPc.rest] using h11
+    simp only
+    split
+    · exact ⟨h1, h2, h3, h4, h5, h6, h7, h8, h9, h10, h11, h12⟩
+    · refine ⟨h1, h2, h3, h4, h5, h6, h7, h8, ?_, ?_, ?_, ?_⟩ <;> simp [RPc.rest]
+      simpa [hr, RPc.rest] using h11
   | enter n =>
     have hn := h9 n hr
     have hrest : (if s.block = true then RPc.waiting else RPc.w1).rest = [] := by
@@ -178,6 +181,9 @@ theorem inv_stepR {s : St} (h : Inv s) : Inv (stepR s) := by
     split
     · refine ⟨h1, h2, h3, h4, h5, h6, h7, h8, ?_, ?_, ?_, ?_⟩ <;> simp [RPc.rest]
       simpa [hr, RPc.rest] using h11
+    split
+    · refine ⟨h1, h2, h3, h4, h5, h6, h7, h8, ?_, ?_, ?_, ?_⟩ <;> simp [RPc.rest]
+      simpa [hr, RPc.rest] using h11
     · refine ⟨h1, h2, h3, h4, h5, h6, h7, h8, ?_, ?_, ?_, ?_⟩ <;> simp only [RPc.rest]
       · simp
       · simp
@@ -192,6 +198,9 @@ theorem inv_stepR {s : St} (h : Inv s) : Inv (stepR s) := by
         · left; omega
         · right; apply List.drop_eq_nil_of_le; omega
   | lock2 rest left =>
+    simp only
+    split
+    · exact ⟨h1, h2, h3, h4, h5, h6, h7, h8, h9, h10, h11, h12⟩
     refine ⟨h1, h2, h3, h4, h5, h6, h7, h8, ?_, ?_, ?_, ?_⟩ <;> simp only [RPc.rest]
     · simp
     · simp
@@ -337,7 +346,7 @@ theorem blocked_basic (s : St) (h : Reachable s) :
 blocked list, the `try_lock` step wakes the `min avail #blocked ≥ 1` OLDEST
 wakers and keeps the others in its local vector. -/
 theorem blocked_wake_pass (s : St) (avail : Nat) (hr : s.r = .tryLock avail) (ha : 1 ≤ avail)
-    (hb : s.blocked ≠ []) :
+    (hb : s.blocked ≠ []) (hl0 : s.blockedLock = none) :
     (stepR s).woken = s.woken ++ s.blocked.take (min avail s.blocked.length) ∧
     s.blocked.take (min avail s.blocked.length) ≠ [] ∧
     (stepR s).blocked = [] ∧
@@ -349,22 +358,30 @@ theorem blocked_wake_pass (s : St) (avail : Nat) (hr : s.r = .tryLock avail) (ha
     | nil => exact absurd hbb hb
     | cons a l => rfl
   refine ⟨?_, ?_, ?_, ?_⟩
-  · simp [stepR, hr, he]
+  · simp [stepR, hr, he, hl0]
   · intro e
     have := congrArg List.length e
     rw [List.length_take, List.length_nil] at this
     omega
-  · simp [stepR, hr, he]
-  · simp [stepR, hr, he]
+  · simp [stepR, hr, he, hl0]
+  · simp [stepR, hr, he, hl0]
+
+/-- `try_lock` fails while a future is inside its push: the pass gives up without waking anybody
+and without touching the list — the futures stay registered for the next pass. -/
+theorem blocked_try_lock_fails (s : St) (avail : Nat) (hr : s.r = .tryLock avail) (j : Nat)
+    (hl : s.blockedLock = some j) :
+    (stepR s).r = .idle ∧ (stepR s).blocked = s.blocked ∧ (stepR s).woken = s.woken := by
+  simp [stepR, hr, hl]
 
 /-- The second critical section: the new registrations `N` found in the list
 are merged behind the held-back wakers; `min left #N` of them stay listed, the
 others are woken; nothing is dropped. -/
-theorem blocked_merge_pass (s : St) (rest : List Nat) (left : Nat) (hr : s.r = .lock2 rest left) :
+theorem blocked_merge_pass (s : St) (rest : List Nat) (left : Nat) (hr : s.r = .lock2 rest left)
+    (hl0 : s.blockedLock = none) :
     (stepR s).blocked = rest ++ s.blocked.drop (s.blocked.length - min left s.blocked.length) ∧
     (stepR s).woken = s.woken ++ s.blocked.take (s.blocked.length - min left s.blocked.length) ∧
     (stepR s).r = .idle := by
-  simp [stepR, hr]
+  simp [stepR, hr, hl0]
 
 /-- **Every return from the kernel is followed by a wake pass** (the `fix:`
 commit): from `.enter n` the ring thread goes to `.w1` and `.w2 _` — the first
@@ -492,7 +509,7 @@ theorem blocked_enter_always_wakes_interleaved (s : St) (n : Nat) (hr : s.r = .e
 `Ring::poll` calls, and the counters are sane (`blocked_basic`). Decidable. -/
 def Quiet (s : St) : Prop :=
   (∀ pc ∈ s.f, pc = FPc.pending ∨ pc = FPc.submitted) ∧ s.r = .idle ∧ s.subLock = none ∧
-    1 ≤ s.len ∧ s.H ≤ s.T ∧ s.T - s.H ≤ s.len
+    1 ≤ s.len ∧ s.H ≤ s.T ∧ s.T - s.H ≤ s.len ∧ s.blockedLock = none
 
 instance (s : St) : Decidable (Quiet s) := by unfold Quiet; infer_instance
 
@@ -515,18 +532,19 @@ theorem drop_min_length {α : Type} (n : Nat) (l : List α) : l.drop (min n l.le
   · rw [Nat.min_eq_right h, List.drop_of_length_le h, List.drop_of_length_le (Nat.le_refl _)]
 
 /-- The state after a quiet poll, explicitly. -/
-theorem quietPoll_eq (s : St) (hr : s.r = .idle) (hl : 1 ≤ s.len) (ht : s.H ≤ s.T) :
+theorem quietPoll_eq (s : St) (hr : s.r = .idle) (hl : 1 ≤ s.len) (ht : s.H ≤ s.T)
+    (hbl : s.blockedLock = none) :
     quietPoll s = { s with H := s.T, woken := s.woken ++ s.blocked.take s.len,
                            blocked := s.blocked.drop s.len, inf := false, block := false } := by
-  obtain ⟨len, H, T, subLock, blocked, f, r, woken, pushed, inf, block⟩ := s
-  simp only at hr hl ht
-  subst hr
+  obtain ⟨len, H, T, subLock, blocked, f, r, woken, pushed, inf, block, blockedLock, kt⟩ := s
+  simp only at hr hl ht hbl
+  subst hr hbl
   have e2 : H + (T - H) = T := by omega
   have e4 : ¬ len = 0 := by omega
   cases blocked with
-  | nil => simp [quietPoll, runMv, stepMv, startPoll, startPollT, stepR, e2, e4]
+  | nil => cases kt <;> simp [quietPoll, runMv, stepMv, startPoll, startPollT, stepR, e2, e4]
   | cons b bs =>
-    simp [quietPoll, runMv, stepMv, startPoll, startPollT, stepR, e2, e4]
+    cases kt <;> simp [quietPoll, runMv, stepMv, startPoll, startPollT, stepR, e2, e4]
 
 /-- **Bounded response**: when no future is in the middle of a poll, ONE
 `Ring::poll` of the ring thread — in which nothing completes: the kernel only
@@ -539,9 +557,9 @@ theorem blocked_quiet_poll (s : St) (hq : Quiet s) :
     (quietPoll s).H = s.T ∧ (quietPoll s).T = s.T ∧ (quietPoll s).r = .idle ∧
     (quietPoll s).f = s.f ∧ (quietPoll s).len = s.len ∧ (quietPoll s).pushed = s.pushed ∧
     Quiet (quietPoll s) := by
-  obtain ⟨h1, h2, h3, h4, h5, h6⟩ := hq
-  rw [quietPoll_eq s h2 h4 h5, take_min_length, drop_min_length]
-  refine ⟨rfl, rfl, rfl, rfl, h2, rfl, rfl, rfl, h1, h2, h3, h4, ?_, ?_⟩
+  obtain ⟨h1, h2, h3, h4, h5, h6, h7⟩ := hq
+  rw [quietPoll_eq s h2 h4 h5 h7, take_min_length, drop_min_length]
+  refine ⟨rfl, rfl, rfl, rfl, h2, rfl, rfl, rfl, h1, h2, h3, h4, ?_, ?_, h7⟩
   · exact Nat.le_refl _
   · show s.T - s.T ≤ s.len
     omega
@@ -644,7 +662,7 @@ fills the queue; future 1 loads head and tail and finds the queue full; the
 ring thread polls: enters, the kernel consumes the entry, the wake pass finds
 a free slot but an EMPTY blocked list; only THEN future 1 registers its waker. -/
 def lostTrace : List Mv :=
-  [.f 0, .f 0, .f 0, .f 0, .f 0, .f 0, .f 1, .f 1, .poll, .r, .r, .r, .r, .r, .f 1]
+  [.f 0, .f 0, .f 0, .f 0, .f 0, .f 0, .f 1, .f 1, .poll, .r, .r, .r, .r, .r, .f 1, .f 1]
 
 /-- The state it leads to: queue empty (`H = T = 1`, one free slot), future 1
 `Pending` with its waker in the list, nobody woken, ring thread idle. -/
@@ -662,21 +680,24 @@ theorem lostState_reachable : Reachable lostState :=
 
 /-- In the old protocol a poll that finds the queue empty does nothing at all:
 `to_submit = 0`, the kernel consumes nothing, ETIME, no wake pass. -/
-theorem quietPollOld_empty (s : St) (hr : s.r = .idle) (he : s.T - s.H = 0) :
+theorem quietPollOld_empty (s : St) (hr : s.r = .idle) (he : s.T - s.H = 0)
+    (hbl : s.blockedLock = none) :
     (quietPollOld s).blocked = s.blocked ∧ (quietPollOld s).woken = s.woken ∧
-    (quietPollOld s).r = .idle ∧ (quietPollOld s).T = s.T ∧ (quietPollOld s).H = s.H := by
-  obtain ⟨len, H, T, subLock, blocked, f, r, woken, pushed, inf, block⟩ := s
-  simp only at hr he
-  subst hr
+    (quietPollOld s).r = .idle ∧ (quietPollOld s).T = s.T ∧ (quietPollOld s).H = s.H ∧
+    (quietPollOld s).blockedLock = none := by
+  obtain ⟨len, H, T, subLock, blocked, f, r, woken, pushed, inf, block, blockedLock, kt⟩ := s
+  simp only at hr he hbl
+  subst hr hbl
   simp [quietPollOld, runMvOld, stepMvOld, startPoll, startPollT, stepROld, stepR, he]
 
-theorem quietPollsOld_empty (k : Nat) (s : St) (hr : s.r = .idle) (he : s.T - s.H = 0) :
+theorem quietPollsOld_empty (k : Nat) (s : St) (hr : s.r = .idle) (he : s.T - s.H = 0)
+    (hbl : s.blockedLock = none) :
     (quietPollsOld k s).blocked = s.blocked ∧ (quietPollsOld k s).woken = s.woken := by
   induction k generalizing s with
   | zero => exact ⟨rfl, rfl⟩
   | succ k ih =>
-    have q := quietPollOld_empty s hr he
-    have := ih (quietPollOld s) q.2.2.1 (by rw [q.2.2.2.1, q.2.2.2.2]; exact he)
+    have q := quietPollOld_empty s hr he hbl
+    have := ih (quietPollOld s) q.2.2.1 (by rw [q.2.2.2.1, q.2.2.2.2.1]; exact he) q.2.2.2.2.2
     rw [q.1, q.2.1] at this
     exact this
 
@@ -693,14 +714,14 @@ theorem blocked_old_enter_loses_wake :
     (quietPoll lostState).woken = [1] ∧ (quietPoll lostState).blocked = [] := by
   refine ⟨lostState_old, by decide, by decide, by decide, ?_, by decide, by decide⟩
   intro k
-  exact quietPollsOld_empty k lostState rfl rfl
+  exact quietPollsOld_empty k lostState rfl rfl rfl
 
 /-- The old protocol loses the wake in EVERY quiet state with an empty queue,
 whatever is in the blocked list. -/
 theorem blocked_old_enter_loses_wake_general (k : Nat) (s : St) (hr : s.r = .idle)
-    (he : s.T - s.H = 0) :
+    (he : s.T - s.H = 0) (hbl : s.blockedLock = none) :
     (quietPollsOld k s).blocked = s.blocked ∧ (quietPollsOld k s).woken = s.woken := by
-  exact quietPollsOld_empty k s hr he
+  exact quietPollsOld_empty k s hr he hbl
 
 /-! ### Non-vacuity: concrete reachable states satisfying the hypotheses -/
 
@@ -708,7 +729,7 @@ theorem blocked_old_enter_loses_wake_general (k : Nat) (s : St) (hr : s.r = .idl
 and is about to register; the ring thread consumed the entry and is at its
 `try_lock` with one free slot. -/
 def passTrace : List Mv :=
-  [.f 0, .f 0, .f 0, .f 0, .f 0, .f 0, .f 1, .f 1, .f 1, .f 2, .f 2, .poll, .r, .r, .r, .r]
+  [.f 0, .f 0, .f 0, .f 0, .f 0, .f 0, .f 1, .f 1, .f 1, .f 1, .f 2, .f 2, .poll, .r, .r, .r, .r]
 
 def passState : St :=
   { len := 1, H := 1, T := 1, blocked := [1], f := [.submitted, .pending, .lockBlocked],
@@ -724,13 +745,13 @@ example : passState.r = .tryLock 1 ∧ 1 ≤ 1 ∧ passState.blocked ≠ [] := b
 
 /-- Future 2 registers BETWEEN the two critical sections: the swap/extend
 branch runs with `N = [2]` (here `left = 0`: the late waker is woken at once). -/
-example : runMv passState [.r, .f 2] =
+example : runMv passState [.r, .f 2, .f 2] =
     { passState with blocked := [2], woken := [1], r := .lock2 [] 0, pushed := [1, 2],
                      f := [.submitted, .pending, .pending] } := by decide
 
-example : (runMv passState [.r, .f 2, .r]).woken = [1, 2] ∧
-    (runMv passState [.r, .f 2, .r]).blocked = [] ∧
-    (runMv passState [.r, .f 2, .r]).pushed = [1, 2] := by decide
+example : (runMv passState [.r, .f 2, .f 2, .r]).woken = [1, 2] ∧
+    (runMv passState [.r, .f 2, .f 2, .r]).blocked = [] ∧
+    (runMv passState [.r, .f 2, .f 2, .r]).pushed = [1, 2] := by decide
 
 /-- `len = 2`, four futures: 0 and 1 submitted, 2 registered, 3 about to
 register; the pass wakes 2 with one slot to spare (`left = 1`); 3 registers
@@ -738,7 +759,7 @@ between the critical sections and the `extend` puts it back in the list:
 hypotheses of `blocked_merge_pass` with a non-empty `N` and `left ≥ 1`. -/
 def mergeTrace : List Mv :=
   [.f 0, .f 0, .f 0, .f 0, .f 0, .f 0, .f 1, .f 1, .f 1, .f 1, .f 1, .f 1,
-   .f 2, .f 2, .f 2, .f 3, .f 3, .poll, .r, .r, .r, .r, .r, .f 3]
+   .f 2, .f 2, .f 2, .f 2, .f 3, .f 3, .poll, .r, .r, .r, .r, .r, .f 3, .f 3]
 
 def mergeState : St :=
   { len := 2, H := 2, T := 2, blocked := [3], f := [.submitted, .submitted, .pending, .pending],
@@ -763,7 +784,7 @@ example : (quietPoll (stepR mergeState)).woken = [2, 3] ∧
 disjunct of `blocked_registered_or_woken`): `len = 1`, futures 1 and 2 blocked,
 one slot: 1 is woken, 2 is held back. -/
 def restTrace : List Mv :=
-  [.f 0, .f 0, .f 0, .f 0, .f 0, .f 0, .f 1, .f 1, .f 1, .f 2, .f 2, .f 2,
+  [.f 0, .f 0, .f 0, .f 0, .f 0, .f 0, .f 1, .f 1, .f 1, .f 1, .f 2, .f 2, .f 2, .f 2,
    .poll, .r, .r, .r, .r, .r]
 
 def restState : St :=
@@ -785,11 +806,11 @@ example : restState.pushed.count 2 > restState.woken.count 2 ∧ 2 ∉ restState
 /-- A woken future polls again, finds the queue full again (future 3 took the
 slot) and registers a second time: `pushed` counts it twice. -/
 example : (runMv (init 1 4 0) (restTrace ++
-      [.r, .f 3, .f 3, .f 3, .f 3, .f 3, .f 3, .repoll 1, .f 1, .f 1, .f 1])).pushed = [1, 2, 1] ∧
+      [.r, .f 3, .f 3, .f 3, .f 3, .f 3, .f 3, .repoll 1, .f 1, .f 1, .f 1, .f 1])).pushed = [1, 2, 1] ∧
     (runMv (init 1 4 0) (restTrace ++
-      [.r, .f 3, .f 3, .f 3, .f 3, .f 3, .f 3, .repoll 1, .f 1, .f 1, .f 1])).blocked = [2, 1] ∧
+      [.r, .f 3, .f 3, .f 3, .f 3, .f 3, .f 3, .repoll 1, .f 1, .f 1, .f 1, .f 1])).blocked = [2, 1] ∧
     (runMv (init 1 4 0) (restTrace ++
-      [.r, .f 3, .f 3, .f 3, .f 3, .f 3, .f 3, .repoll 1, .f 1, .f 1, .f 1])).woken = [1] := by
+      [.r, .f 3, .f 3, .f 3, .f 3, .f 3, .f 3, .repoll 1, .f 1, .f 1, .f 1, .f 1])).woken = [1] := by
   decide
 
 /-- `blocked_basic` on a state where a future holds the submission lock with a
@@ -802,7 +823,7 @@ example : (runMv (init 2 2 5) lockTrace).subLock = some 0 ∧
 /-- hypotheses of `blocked_enter_always_wakes`: an `enter` with nothing to
 submit (`n = 0`: the ETIME case) and one with an entry. -/
 example : (runMv lostState [.poll, .r]).r = .enter 0 := by decide
-example : (runMv passState [.r, .r, .f 2, .repoll 1, .f 1, .f 1, .f 1, .f 1, .f 1, .f 1, .poll, .r]).r
+example : (runMv passState [.r, .r, .f 2, .f 2, .repoll 1, .f 1, .f 1, .f 1, .f 1, .f 1, .f 1, .poll, .r]).r
     = .enter 1 := by decide
 
 /-- hypotheses of `blocked_quiet_poll(s)` -/
@@ -811,7 +832,7 @@ example : Quiet (init 4 0 7) := by decide
 
 /-- three blocked futures, one slot: three quiet polls, one wake each, oldest first -/
 def queueTrace : List Mv :=
-  [.f 0, .f 0, .f 0, .f 0, .f 0, .f 0, .f 1, .f 1, .f 1, .f 2, .f 2, .f 2, .f 3, .f 3, .f 3]
+  [.f 0, .f 0, .f 0, .f 0, .f 0, .f 0, .f 1, .f 1, .f 1, .f 1, .f 2, .f 2, .f 2, .f 2, .f 3, .f 3, .f 3, .f 3]
 
 example : Quiet (runMv (init 1 4 0) queueTrace) ∧
     (runMv (init 1 4 0) queueTrace).blocked = [1, 2, 3] ∧
